@@ -1233,6 +1233,10 @@ _node_map: dict[type, Callable[[Any, Module | Class], Expr]] = {
 
 
 def _build(node: ast.AST, parent: Module | Class, **kwargs: Any) -> Expr:
+    if not isinstance(node, (ast.Tuple, ast.Constant)):
+        # Only the slice itself (a tuple, or a string parsed into one) can be an implicit tuple:
+        # tuples nested deeper keep their parentheses (`a[[(b, c)]]`).
+        kwargs.pop("in_subscript", None)
     return _node_map[type(node)](node, parent, **kwargs)
 
 
